@@ -285,10 +285,12 @@ class CSSImportRule(cssrule.CSSRule):
                 # use cwd instead
                 parentHref = css_parser.helper.path2url(os.getcwd()) + '/'
 
-            fullhref = urljoin(parentHref, self.href)
-
             # all possible exceptions are ignored
             try:
+                # (urljoin: ValueError for e.g. "http://[a", an invalid
+                # IPv6 URL)
+                fullhref = urljoin(parentHref, self.href)
+
                 # a sheet which is being loaded already (it imports itself,
                 # directly or via other sheets) is not loaded again
                 ancestor = self.parentStyleSheet
